@@ -183,7 +183,7 @@ func kinds() []rsKind {
 		{name: "byte:space", rs: " ", alpha: []string{"a", " ", "\n", "\t"}, fill: "q", edge: []string{" "}},
 		{name: "byte:CR", rs: "\r", alpha: []string{"a", "\r", "\n", "b"}, fill: "q", edge: []string{"\r\n"}},
 		{name: "byte:NUL", rs: "\x00", alpha: []string{"a", "\x00", "\n", "\xc3"}, fill: "q", edge: []string{"\x00"}},
-		{name: "byte:0xFF", rs: "\xff", alpha: []string{"a", "\xff"}, fill: "q"},
+		{name: "byte:0xFF", rs: "\xff", alpha: []string{"a", "\xff", "\n", "\xc3"}, fill: "q", edge: []string{"\xff", "\xff\xff"}},
 		{name: "blank", rs: "", alpha: []string{"a", "\n", "\r", "b"}, fill: "q", edge: []string{"\n\n", "\n\n\n", "\n\r\n", "\n\nb\n\n\n"}},
 		reKind("re:é", chr('é'), []string{"a", "\xc3", "\xa9", "é"}, []string{"é", "éé"}),
 		reKind("re:x+", plus(chr('x')), []string{"a", "x", "b"}, []string{"x", "xx", "xxx"}),
@@ -273,14 +273,6 @@ func genCases(o hx.Opts, r *hx.Rand, ks []rsKind) []kase {
 	}
 	for i := range ks {
 		k := &ks[i]
-		if k.rs == "\xff" {
-			// assigning RS panics in the pinned tree; a handful of cases is enough
-			for _, d := range []string{"", "a\xffb", "\xff"} {
-				add(k, d, oneCut(len(d)), false, "oneshot")
-			}
-			add(k, "a\xffb", []int{1, 2}, false, "exhaustive")
-			continue
-		}
 		// 1. every input up to exhLen units x every chunking
 		el := exhLen
 		if k.name == "re:random" {
@@ -351,8 +343,7 @@ func genCases(o hx.Opts, r *hx.Rand, ks []rsKind) []kase {
 			add(k, d, c, false, fmt.Sprintf("%d-empty-reads", z))
 		}
 		// 5. around the 64 KiB buffer edge: a long first record, separator text across the edge
-		bigQuick := map[string]bool{"newline": true, "byte:,": true, "blank": true, "re:é": true, "re:x+": true,
-			"re:ab|abcd": true, `re:\n\n+`: true, "re:a..d|b": true}
+		bigQuick := map[string]bool{"newline": true, "byte:,": true, "blank": true, "re:é": true, "re:x+": true, "re:ab|abcd": true}
 		if len(k.edge) > 0 && (thorough || bigQuick[k.name]) {
 			for ei, e := range k.edge {
 				if !thorough && ei > 0 {
@@ -412,10 +403,7 @@ func classifyChunkDiff(k kase, chunked, ref result) string {
 		}
 		for i := range ref.recs {
 			if chunked.recs[i].rt != ref.recs[i].rt {
-				if i == len(ref.recs)-1 {
-					return `RS="": RT of the final record depends on whether leading newlines were skipped in the same split call`
-				}
-				return `RS="": RT of a non-final record depends on where a read ends inside the newline run`
+				return `RS="": RT depends on the delivery`
 			}
 		}
 		return `RS="": other`
@@ -793,15 +781,18 @@ func main() {
 // so no delivery dependence is expected); the first RS is always handled by regexSplitter.
 func schedCases(o hx.Opts, r *hx.Rand, rep *hx.Report) {
 	type pair struct {
-		rs1 string
-		re1 *hx.Re
-		rs2 string
-		re2 *hx.Re
+		rs1   string
+		re1   *hx.Re
+		rs2   string
+		re2   *hx.Re
+		alpha []string // nil = the default alphabet
 	}
 	ab := cat(chr('a'), chr('b'))
 	pairs := []pair{
-		{"ab", ab, ",", chr(',')}, {"é", chr('é'), "ab", ab}, {"ab", ab, "\n", chr('\n')},
-		{"ab", ab, "", &hx.Re{Kind: "eps"}}, {"ab", ab, "é", chr('é')}, {",b", cat(chr(','), chr('b')), "a", chr('a')},
+		{"ab", ab, ",", chr(','), nil}, {"é", chr('é'), "ab", ab, nil}, {"ab", ab, "\n", chr('\n'), nil},
+		{"ab", ab, "", &hx.Re{Kind: "eps"}, nil}, {"ab", ab, "é", chr('é'), nil}, {",b", cat(chr(','), chr('b')), "a", chr('a'), nil},
+		// a single non-UTF-8 byte cannot be a regex: the active regexSplitter keeps "ab" (regex AST unused by the model)
+		{"ab", ab, "\xff", &hx.Re{Kind: "eps"}, []string{"a", "b", "\xff", "\n"}},
 	}
 	alpha := []string{"a", "b", ",", "\n", "é"}
 	exh, nrnd, rlen := 3, 4, 8
@@ -816,6 +807,10 @@ func schedCases(o hx.Opts, r *hx.Rand, rep *hx.Report) {
 	}
 	var cs []sk
 	for _, p := range pairs {
+		alpha := alpha
+		if p.alpha != nil {
+			alpha = p.alpha
+		}
 		for _, k := range []int{1, 2} {
 			var inputs []string
 			for n := 1; n <= exh; n++ {
